@@ -9,10 +9,12 @@ use std::mem::ManuallyDrop;
 use std::panic::{catch_unwind, AssertUnwindSafe};
 use std::time::Instant;
 
+mod pairs;
+
 #[global_allocator]
 static GLOBAL: arena::Arena = arena::Arena;
 
-fn alphabet(name: &str) -> Vec<Op> {
+pub fn alphabet(name: &str) -> Vec<Op> {
     use Op::*;
     use Tgt::*;
     match name {
@@ -87,6 +89,55 @@ fn alphabet(name: &str) -> Vec<Op> {
             v.extend([ResSet(0), ResSet(1), ResSet(2)]);
             v
         }
+        "twin" => vec![
+            Insert { mask: 1, rev: false },
+            Insert { mask: 14, rev: true },
+            Extend { mask: 1, n: 2, style: 0 },
+            Extend { mask: 5, n: 1, style: 0 },
+            Remove(Lo),
+            Remove(Hi),
+            Clear,
+            Add(Lo, 1),
+            RemoveComp(Lo, 0),
+            Shrink,
+            Twin(0),
+            Twin(1),
+            Twin(2),
+            RtJson,
+            CloneSelf,
+            MutQ(0),
+            ResSet(2),
+        ],
+        "ctwin" => vec![
+            Insert { mask: 1, rev: false },
+            Insert { mask: 14, rev: true },
+            Extend { mask: 5, n: 2, style: 0 },
+            Remove(Lo),
+            Clear,
+            Add(Lo, 2),
+            RemoveComp(Lo, 0),
+            Shrink,
+            Twin(3),
+            Snapshot,
+            CloneFromAux,
+            SwapAux,
+            MutQ(0),
+            ResSet(0),
+        ],
+        "follow" => vec![
+            Insert { mask: 5, rev: false },
+            Insert { mask: 15, rev: true },
+            Extend { mask: 1, n: 2, style: 0 },
+            Remove(Lo),
+            Remove(Hi),
+            Clear,
+            Add(Lo, 1),
+            RemoveComp(Lo, 0),
+            MutQ(0),
+            Shrink,
+            ResSet(2),
+            RtJson,
+        ],
         "res" => vec![
             Insert { mask: 9, rev: true },
             Remove(Lo),
@@ -172,7 +223,10 @@ fn run_one(cfg: &RunCfg, hist: &[u8]) -> Outcome {
         }
         // tear down: drop both worlds (order varies with the history), then the ledger must be empty
         let lastk = hist.last().map_or("init", |&oi| cfg.ops[oi as usize].kind());
-        let Exec { w, aux, m, maux, .. } = ManuallyDrop::into_inner(ex);
+        let Exec { w, aux, m, maux, twin, .. } = ManuallyDrop::into_inner(ex);
+        if hist.len() % 3 == 0 {
+            drop(twin);
+        }
         if hist.len() % 2 == 0 {
             drop(w);
             drop(aux);
@@ -235,38 +289,40 @@ fn run_one(cfg: &RunCfg, hist: &[u8]) -> Outcome {
     }
 }
 
-struct ConfigResult {
-    name: String,
-    depth_done: usize,
-    states: usize,
-    transitions: u64,
-    disabled: u64,
-    per_level: Vec<(usize, u64)>,
-    per_op: BTreeMap<&'static str, u64>,
-    classes: BTreeMap<&'static str, u64>,
-    samples: Vec<String>,
-    max_allocs: u64,
+pub struct ConfigResult {
+    pub all_states: Vec<Vec<u8>>,
+    pub name: String,
+    pub depth_done: usize,
+    pub states: usize,
+    pub transitions: u64,
+    pub disabled: u64,
+    pub per_level: Vec<(usize, u64)>,
+    pub per_op: BTreeMap<&'static str, u64>,
+    pub classes: BTreeMap<&'static str, u64>,
+    pub samples: Vec<String>,
+    pub max_allocs: u64,
 }
 
-struct Found {
-    prop: Prop,
-    key: String,
-    detail: String,
-    config: String,
-    hist: Vec<u8>,
-    arena: usize,
-    count: u64,
+pub struct Found {
+    pub prop: Prop,
+    pub key: String,
+    pub detail: String,
+    pub config: String,
+    pub hist: Vec<u8>,
+    pub arena: usize,
+    pub count: u64,
 }
 
 fn render(ops: &[Op], hist: &[u8]) -> String {
     hist.iter().map(|&i| format!("{:?}", ops[i as usize])).collect::<Vec<_>>().join("; ")
 }
 
-fn bfs(name: &str, depth: usize, props: &[Prop], threads: usize, found: &mut Vec<Found>, deadline: Instant) -> ConfigResult {
+pub fn bfs(name: &str, depth: usize, props: &[Prop], threads: usize, found: &mut Vec<Found>, deadline: Instant) -> ConfigResult {
     let ops = alphabet(name);
     let mut visited: HashSet<u128> = HashSet::new();
     let mut frontier: Vec<Vec<u8>> = vec![vec![]];
     let mut res = ConfigResult {
+        all_states: vec![vec![]],
         name: name.to_string(),
         depth_done: 0,
         states: 0,
@@ -374,6 +430,7 @@ fn bfs(name: &str, depth: usize, props: &[Prop], threads: usize, found: &mut Vec
         if let Some(h) = next.get(next.len() / 2) {
             res.samples.push(render(&ops, h));
         }
+        res.all_states.extend(next.iter().cloned());
         frontier = next;
         if frontier.is_empty() {
             break;
@@ -387,28 +444,28 @@ fn default_configs(prop: Prop, tier: &str) -> Vec<(&'static str, usize)> {
     let q = tier == "quick";
     match prop {
         Prop::C01 => {
-            if q { vec![("shape", 4), ("alloc", 5), ("copy", 4), ("all", 2)] } else { vec![("shape", 5), ("alloc", 7), ("copy", 5), ("all", 3), ("zbig", 5)] }
+            if q { vec![("shape", 7), ("alloc", 8), ("copy", 7), ("all", 3), ("zbig", 6)] } else { vec![("shape", 8), ("alloc", 10), ("copy", 8), ("all", 4), ("zbig", 7)] }
         }
         Prop::C02 => {
-            if q { vec![("alloc", 5), ("stale", 4), ("copy", 4)] } else { vec![("alloc", 7), ("stale", 6), ("copy", 5), ("shape", 5), ("all", 3)] }
+            if q { vec![("alloc", 8), ("stale", 7), ("copy", 7), ("shape", 6), ("all", 3)] } else { vec![("alloc", 10), ("stale", 8), ("copy", 8), ("shape", 7), ("all", 4)] }
         }
         Prop::C04 => {
-            if q { vec![("shape", 4), ("copy", 4), ("all", 2)] } else { vec![("shape", 5), ("copy", 5), ("all", 3), ("zbig", 5)] }
+            if q { vec![("shape", 7), ("copy", 7), ("all", 3), ("zbig", 7)] } else { vec![("shape", 8), ("copy", 8), ("all", 4), ("zbig", 8), ("alloc", 8)] }
         }
         Prop::C05 => {
-            if q { vec![("zbig", 4), ("shape", 4), ("copy", 4), ("all", 2)] } else { vec![("zbig", 6), ("shape", 5), ("copy", 5), ("alloc", 6), ("all", 3)] }
+            if q { vec![("zbig", 7), ("shape", 7), ("copy", 7), ("alloc", 7), ("all", 3)] } else { vec![("zbig", 8), ("shape", 8), ("copy", 8), ("alloc", 9), ("all", 4)] }
         }
         Prop::C13 => {
-            if q { vec![("alloc", 5), ("shape", 4), ("copy", 4), ("all", 2)] } else { vec![("alloc", 7), ("shape", 5), ("copy", 5), ("stale", 5), ("all", 3), ("zbig", 5)] }
+            if q { vec![("alloc", 8), ("shape", 7), ("copy", 7), ("stale", 6), ("all", 3), ("zbig", 6)] } else { vec![("alloc", 10), ("shape", 8), ("copy", 8), ("stale", 8), ("all", 4), ("zbig", 7)] }
         }
         Prop::C15 => {
-            if q { vec![("res", 4), ("all", 2)] } else { vec![("res", 6), ("all", 3), ("copy", 5)] }
+            if q { vec![("res", 9), ("all", 3), ("copy", 6)] } else { vec![("res", 11), ("all", 4), ("copy", 7)] }
         }
         Prop::C06 => {
-            if q { vec![("copy", 4), ("alloc", 5)] } else { vec![("copy", 5), ("alloc", 7), ("all", 3)] }
+            if q { vec![("twin", 7), ("copy", 7), ("alloc", 8)] } else { vec![("twin", 8), ("copy", 8), ("alloc", 10), ("all", 4)] }
         }
         Prop::C10 => {
-            if q { vec![("copy", 4), ("all", 2)] } else { vec![("copy", 6), ("all", 3)] }
+            if q { vec![("ctwin", 7), ("copy", 7), ("all", 3)] } else { vec![("ctwin", 8), ("copy", 8), ("all", 4)] }
         }
         Prop::C16 => vec![("copy", 3)],
     }
@@ -424,6 +481,7 @@ fn main() {
     let mut replay_dir = "/verif/replays".to_string();
     let mut replay: Option<String> = None;
     let mut budget_s = 3600u64;
+    let mut mode = "bfs".to_string();
     let mut i = 1;
     while i < args.len() {
         match args[i].as_str() {
@@ -463,6 +521,10 @@ fn main() {
                 replay = Some(args[i + 1].clone());
                 i += 1
             }
+            "--mode" => {
+                mode = args[i + 1].clone();
+                i += 1
+            }
             "--budget-s" => {
                 budget_s = args[i + 1].parse().unwrap();
                 i += 1
@@ -476,9 +538,16 @@ fn main() {
     let seed: i64 = std::env::var("VERIF_SEED").ok().and_then(|s| s.parse().ok()).unwrap_or(0);
 
     if let Some(path) = replay {
+        let text = std::fs::read_to_string(&path).expect("cannot read replay file");
+        if text.contains("\"engine\": \"hist-pairs\"") {
+            std::process::exit(pairs::replay_pairs(&path));
+        }
         std::process::exit(do_replay(&path));
     }
 
+    if mode == "pairs" {
+        std::process::exit(pairs::main_pairs(prop, &tier, threads, evidence.as_deref(), &replay_dir, seed, budget_s));
+    }
     let props = [prop];
     let configs: Vec<(String, usize)> = configs.unwrap_or_else(|| default_configs(prop, &tier).into_iter().map(|(n, d)| (n.to_string(), d)).collect());
     let t0 = Instant::now();
